@@ -62,6 +62,18 @@ def run_one(ctl: explorer.Ctl, cfg: Dict[str, Any]) -> Dict[str, Any]:
         probe = sched.UuidStub()
         ptoken = str(probe()) if use_cb else None
         token = CancellationToken() if use_token else None
+        user_cb_calls: List[str] = []
+
+        def user_cb(kind, name):
+            def f():
+                user_cb_calls.append(name)
+                if kind == "raise":
+                    raise RuntimeError(f"user callback {name} failed")
+            return f
+
+        if token is not None:
+            for i, kind in enumerate(cfg.get("token_cbs") or []):
+                token.add_callback(user_cb(kind, f"early{i}"))
         cb_calls: List[list] = []
         arrivals: List[tuple] = []
         st: Dict[str, Any] = {}
@@ -128,6 +140,13 @@ def run_one(ctl: explorer.Ctl, cfg: Dict[str, Any]) -> Dict[str, Any]:
                 if r is not None:
                     loop.env_call_at(t0 + r[0], r[1], deliver, resp, "R")
 
+            if cfg.get("late_cb"):
+                def add_late():
+                    try:
+                        token.add_callback(user_cb(cfg["late_cb"], "late"))
+                    except RuntimeError:
+                        pass  # registered on an already cancelled token: called at once, fails in the registrant's frame
+                loop.env_call_at(t0 + 0.05, 0, add_late)
             # identical (time, rank): creation order decides which fires first - made explicit
             if cfg.get("first", "c") == "r":
                 sched_resp()
@@ -272,7 +291,6 @@ def run_one(ctl: explorer.Ctl, cfg: Dict[str, Any]) -> Dict[str, Any]:
     other = [w for w in wd if w not in cancelled_notes and w not in requests]
     if other:
         bad("unexpected-write", f"{other[:2]}")
-
     # ---- progress: exactly once per matching notification that arrived before completion ---
     if use_cb:
         exp = []
@@ -304,6 +322,167 @@ def run_one(ctl: explorer.Ctl, cfg: Dict[str, Any]) -> Dict[str, Any]:
         bad("leftover-tasks", f"{leftover} tasks pending")
     obs["violations"] = viol
     return obs
+
+
+RUN_SHARED = "vf.checks.c14:run_shared"
+
+
+def run_shared(ctl: explorer.Ctl, cfg: Dict[str, Any]) -> Dict[str, Any]:
+    """Several requests under ONE CancellationToken, each on its own connection: 'concurrent' (request k starts
+    at starts[k]) or 'sequential' (request k+1 starts when request k ended).  The token is triggered once at
+    cfg['cancel'].  Every request is judged on its own, exactly as a single request is."""
+    from chuk_mcp.protocol.messages.json_rpc_message import parse_message
+    from chuk_mcp.protocol.messages.send_message import (CancellationToken, CancelledError, send_message)
+    from chuk_mcp.protocol.types.errors import NonRetryableError, RetryableError
+    import asyncio
+
+    T = cfg["T"]
+    n = cfg["n"]
+    tc, tc_rank = cfg["cancel"]
+    loop = new_loop(horizon=(n + 1) * (T + 1) + 5)
+    viol: List[dict] = []
+    with sched.patched_uuid():
+        token = CancellationToken()
+        conns: List[tuple] = []
+        results: List[Any] = [None] * n
+        st: Dict[str, Any] = {}
+
+        def do_cancel():
+            st["t_cancel"] = loop.time()
+            token.cancel()
+
+        async def one(k: int):
+            send_r, recv_r, send_w, recv_w = conns[k]
+            t0 = loop.time()
+            rt = (cfg.get("responses") or [None] * n)[k]
+            if rt is not None:
+                loop.env_call_at(t0 + rt, 0, lambda: send_r.send_nowait(
+                    parse_message({"jsonrpc": "2.0", "id": f"rq-{k}", "result": {"who": k}})))
+            try:
+                val = await send_message(recv_r, send_w, "tools/call", {"name": f"t{k}"}, timeout=T,
+                                         message_id=f"rq-{k}", cancellation_token=token)
+                out = ("result", sched.jsonable(val))
+            except CancelledError as e:
+                out = ("cancelled", str(e))
+            except TimeoutError:
+                out = ("timeout", None)
+            except (RetryableError, NonRetryableError) as e:
+                out = ("error", str(e))
+            except BaseException as e:  # noqa: BLE001
+                out = ("other-exc", core.clean_repr(e)[:160])
+            results[k] = (out, t0, loop.time())
+
+        async def main():
+            for _ in range(n):
+                send_w, recv_w = anyio.create_memory_object_stream(math.inf)
+                send_r, recv_r = anyio.create_memory_object_stream(math.inf)
+                conns.append((send_r, recv_r, send_w, recv_w))
+            loop.env_call_at(loop.time() + tc, tc_rank, do_cancel)
+            if cfg["mode"] == "sequential":
+                for k in range(n):
+                    await one(k)
+            else:
+                tasks = []
+                for k in range(n):
+                    async def later(k=k):
+                        if cfg["starts"][k]:
+                            await asyncio.sleep(cfg["starts"][k])
+                        await one(k)
+                    tasks.append(asyncio.ensure_future(later()))
+                for t in tasks:
+                    await t
+
+        status, val = loop.run_main(main())
+        errors = loop.collect_errors()
+        writes = []
+        for c in conns:
+            ws = []
+            try:
+                while True:
+                    ws.append(c[3].receive_nowait().model_dump(exclude_none=True))
+            except Exception:  # noqa: BLE001
+                pass
+            writes.append(ws)
+        leftover = len(loop.leftover_tasks())
+        loop.abandon()
+    if status != "ok":
+        return {"outcome": status, "violations": [{"sig": {"class": "did-not-finish", "part": "shared-token", "status": status},
+                                                   "msg": f"cfg={cfg}: {status} {core.clean_repr(val)}"}]}
+    tol = 1e-9
+    t_cancel = st.get("t_cancel")
+    summary = []
+    for k in range(n):
+        (okind, oval), t0, t1 = results[k]
+        summary.append(okind)
+        rt = (cfg.get("responses") or [None] * n)[k]
+        tr = None if rt is None else t0 + rt
+        ws = writes[k]
+        reqs = [w for w in ws if w.get("method") == "tools/call"]
+        notes = [w for w in ws if w.get("method") == "notifications/cancelled"]
+
+        def bad(cls, msg, **extra):
+            viol.append({"sig": {"class": cls, "part": "shared-token", "request": "first" if k == 0 else "later", "mode": cfg["mode"], **extra},
+                         "msg": f"cfg={cfg}: request {k} (started {t0}): {msg} [outcome={okind} at {t1}; cancel at {t_cancel}; wrote {ws}]"})
+
+        pre = t_cancel is not None and t_cancel < t0 - tol
+        at_start = t_cancel is not None and abs(t_cancel - t0) <= tol
+        if t1 - t0 > T + tol:
+            bad("late-completion", f"completed {t1 - t0} after its start, deadline {T}")
+        if pre:
+            if okind != "cancelled":
+                bad("pre-cancel-not-raised", "the token was already triggered when the call started")
+            if reqs:
+                bad("pre-cancelled-request-sent", "request written although the token was already triggered")
+        else:
+            if len(reqs) != 1 and not at_start:
+                bad("request-count", f"{len(reqs)} requests written")
+            if okind == "result":
+                if tr is None or abs(t1 - tr) > tol:
+                    bad("result-without-response", f"response time {tr}")
+                elif t_cancel is not None and tr > t_cancel + POLL + tol:
+                    bad("cancel-ignored", f"response only at {tr}")
+            elif okind == "cancelled":
+                if t_cancel is None or t1 < t_cancel - tol or t1 > min(t_cancel + POLL, t0 + T) + tol:
+                    bad("cancel-latency", "CancelledError outside [cancel, cancel + one poll]")
+                if tr is not None and tr < t_cancel - tol:
+                    bad("cancelled-after-response", f"response had arrived at {tr}")
+            elif okind == "timeout":
+                if abs(t1 - t0 - T) > tol:
+                    bad("timeout-at-wrong-time", "")
+                if tr is not None and tr < t0 + T - tol:
+                    bad("lost-response", f"response arrived at {tr}")
+                if t_cancel is not None and t_cancel + POLL < t0 + T - tol and t_cancel >= t0 - tol and (tr is None or tr > t_cancel + POLL + tol):
+                    bad("cancel-not-honoured", "expected CancelledError within one poll of the cancel")
+            else:
+                bad("unexpected-outcome", f"{oval}")
+        if okind == "cancelled":
+            if len(notes) != 1:
+                bad("cancelled-notification-count", f"{len(notes)} cancelled notifications for a cancelled request")
+            elif notes[0].get("params", {}).get("requestId") != f"rq-{k}":
+                bad("cancelled-notification-wrong-id", f"{notes[0]}")
+        elif notes:
+            bad("spurious-cancelled-notification", f"{len(notes)} cancelled notifications but outcome {okind}")
+    if errors:
+        viol.append({"sig": {"class": "loop-error", "part": "shared-token"}, "msg": f"{errors[:2]}"})
+    if leftover:
+        viol.append({"sig": {"class": "leftover-tasks", "part": "shared-token"}, "msg": f"cfg={cfg}: {leftover} tasks pending"})
+    return {"outcome": "/".join(summary), "violations": viol}
+
+
+def shared_configs(tier: str):
+    out = []
+    T = 1.0
+    cancels = [[0.1, 0], [0.25, 0], [0.5, -1], [0.5, 1], [0.6, 0], [0.95, 0]]
+    if tier == "thorough":
+        cancels += [[0.5 - EPS, 0], [0.5 + EPS, 0], [0.7, -1], [0.7, 1], [1.0, -1], [1.0, 1], [1.3, 0]]
+    for c in cancels:
+        for n in (2, 3):
+            for starts in ([0.0] * n, [0.0, 0.2] + [0.4] * (n - 2), [0.0, 0.2, 0.2][:n]):
+                for resp in itertools.product([None, 0.05, 0.8], repeat=n):
+                    out.append({"T": T, "n": n, "mode": "concurrent", "starts": list(starts), "cancel": c, "responses": list(resp)})
+            for resp in itertools.product([None, 0.05], repeat=n):
+                out.append({"T": T, "n": n, "mode": "sequential", "cancel": c, "responses": list(resp)})
+    return out
 
 
 def configs_for(tier: str):
@@ -374,6 +553,16 @@ def configs_for(tier: str):
                 for tr in ("none", "burst"):
                     g.append({"T": T, "traffic": tr, "cancel": c, "response": None, "write_buffer": wb})
     parts["congested-write-stream"] = g
+    # (5) the caller's own callbacks on the token (quiet or failing, registered before the call or while it runs)
+    g = []
+    for c in ["pre", [0.1, 0], [0.25, 0], [0.5, -1], [0.5, 1], [0.75, 0], None]:
+        for r in (None, [0.8, 0]):
+            for cbs in ([], ["quiet"], ["raise"], ["raise", "quiet"], ["quiet", "raise"], ["raise", "raise"]):
+                for late in (None, "quiet", "raise"):
+                    if not cbs and not late:
+                        continue
+                    g.append({"T": 1.0, "traffic": "none", "cancel": c, "response": r, "token_cbs": cbs, "late_cb": late})
+    parts["token-with-user-callbacks"] = g
     return parts
 
 
@@ -385,13 +574,20 @@ def run(tier: str, only=None) -> core.Result:
         out = explorer.explore(RUN, cfgs, fidelity=True)
         sched.absorb(res, name, RUN, out, cfgs, min_outcomes=1 if name == "congested-write-stream" else 2)
         sched.debug_pass(res, name, RUN, [c for c in cfgs if c.get("traffic") != "flood"], every=5)
+    if not only or "shared-token" in only:
+        sc = shared_configs(tier)
+        out = explorer.explore(RUN_SHARED, sc, fidelity=True)
+        sched.absorb(res, "one-token-shared-by-several-requests", RUN_SHARED, out, sc)
+        sched.debug_pass(res, "one-token-shared-by-several-requests", RUN_SHARED, sc, every=7)
     res.coverage["exhaustive"] = True
     res.coverage["rule"] = (
         "every placement of {cancel, matching response} on the grid {10 ms steps within +-30 ms (quick +-10 ms) of each 0.5 s "
         "poll boundary and of the deadline, +-1 us, exactly on them in both tie orders, 'before the call', 'never'} for "
         "T in {0.3,1.0,1.2} x background traffic {none, burst of 5, flood every 10 ms}; every progress stream of <=3 "
         "notifications over {matching, foreign token, matching without fields} x 4 time points x callback raising at each "
-        "position x ending {response, timeout, cancel}; distinct = distinct observation digests"
+        "position x ending {response, timeout, cancel}; the caller's own token callbacks (quiet / failing, registered before or during "
+        "the call) x cancel placements; one token shared by 2-3 requests on separate connections, concurrent (start offsets) or one after "
+        "the other, x cancel placements x per-request response times; distinct = distinct observation digests"
     )
     res.assumptions = [
         "when the response arrives after the token was triggered but within one polling interval, both the result and CancelledError are accepted (the statement's 'unless its response arrived first' does not fix which)",
